@@ -17,6 +17,8 @@ Model driver for C18. Line protocol (fields separated by one space; byte strings
   legacy <idhex> <expecthex> <pdhfieldhex> <mthex>   -- rewriteSignatures on a 200 record
                                              → ok <mthex> | err invalid-stream|pdh-field|hash
   legacyraw reqerr|status:<code>|badjson     → reqerr | pass <code> | err json
+  lfetchu <method> <cidhex> <uuidhex> <peer> -- fetchRemoteCollectionByUUID; peer = reply | - (no RemoteClusters entry)
+                                             → unhandled | ok <mthex> cc=0 leak=0 | status <code> … | err <code> …
   lfetch <reqhex> <local> <remotes> <order>  -- fetchRemoteCollectionByPDH with scripted transports
         reply = R:<uuidhex>:<fieldhex>:<mthex> (200 record) | S:<code> | X (transport error) | H
                                              → unhandled | ok <mthex> cc=<0|1> leak=0
@@ -184,6 +186,19 @@ def step (line : String) : String :=
         | .ok m => "ok " ++ enhex m ++ tail
         | .error c => "err " ++ toString c ++ tail
       | none => "bad-op"
+    | _, _, _ => "bad-op"
+  | ["lfetchu", method, cid, uuid, peer] =>
+    match unhex cid, unhex uuid, (if peer == "-" then some none else (parseLReply peer).map some) with
+    | some cid, some uuid, some peer =>
+      if uuid.length != 0 && uuid.length != 27 then "bad-op" else
+      let p : Option LegacyLocal := peer.map (fun r => match r with | some r => .reply r | none => .hang)
+      let isGet := method == "GET"
+      let tail := " cc=" ++ flag (legacyUNeedsClientCancel cid uuid isGet p) ++ " leak=0"
+      match legacyFetchByUUID md5Str cid uuid isGet p with
+      | .unhandled => "unhandled"
+      | .ok m => "ok " ++ enhex m ++ tail
+      | .status c => "status " ++ toString c ++ tail
+      | .error c => "err " ++ toString c ++ tail
     | _, _, _ => "bad-op"
   | ["legacyraw", k] =>
     if k == "reqerr" then "reqerr"
